@@ -19,7 +19,7 @@ RULE = ("Random op sequences (fill-drain / Dijkstra-like / random mixes; capacit
         "sweep of all legal sequences over capacity<=3, costs {0,1,2}, plus live traffic: real supervised / semi / KNN / unsupervised fits with an "
         "in-situ oracle on every Heap.remove (removed element has the extremal cost among all queued). Non-trivial: capacity>=3, >=2 successful "
         "removes and >=1 strictly improving update of a queued element; distinct = distinct op-sequence hash.")
-RULE += (" Elements that were queued and returned are inserted again (op 'reins'; also after a complete drain; in the exhaustive sweep too); 6% of the heaps receive their costs as numpy scalars (uint8/16/64, int8, float32) while the model keeps Python ints.")
+RULE += (" Elements that were queued and returned are inserted again (op 'reins'; also after a complete drain; in the exhaustive sweep too); 6% of the heaps receive their costs as numpy scalars (uint8/16/64, int8, float32) while the model keeps Python ints." + " After a complete drain the policy may be switched through the public setter (op 'policy') and the history continues.")
 ASSUMPTIONS = [
     "ids are inserted at most once (never re-inserted after removal) and updates only improve in the policy's direction or keep the cost — the statement's premise",
     "costs are set through heap.cost[p]=v before insert(p), the idiom every model uses; update(p,v) sets the cost itself",
